@@ -389,7 +389,13 @@ func (n *nodeSim) dtlsrBroadcastSend(rec *sendRec, done bool) {
 	}
 	n.res.Probe("dtlsr_broadcast_send")
 	if ep, ok := st.sentOK[rec.idStr][rec.peer]; ok && ep < rec.rootEpoch && rec.incarn == n.incarn {
-		n.res.Violate("C13", "not-twice", "broadcast-resent-after-success/dtlsr", "link-state bundle %s was transmitted successfully to p%d (epoch %d) and offered to it again (dispatch of epoch %d)", rec.idStr, rec.peer, ep, rec.rootEpoch)
+		sig := "broadcast-resent-after-success/dtlsr"
+		if n.overlapKeys[rec.idStr] {
+			// two dispatches of this bundle (its originating one and the pending-retry tick of the same instant)
+			// had their read-modify-write of the bundle's routing state interleaved: recorded finding
+			sig += "/overlapping-dispatches"
+		}
+		n.res.Violate("C13", "not-twice", sig, "link-state bundle %s was transmitted successfully to p%d (epoch %d) and offered to it again (dispatch of epoch %d)", rec.idStr, rec.peer, ep, rec.rootEpoch)
 	}
 	// C13: a broadcast bundle never goes back to the peer named in the previous-node block it arrived with
 	if from, ok := st.lsFrom[rec.idStr]; ok && from == rec.peer {
